@@ -46,9 +46,19 @@ def check_operator_table(res, f, rid, wrap=None, width='u64', extra_tokens=()):
                 sd = f.single_def(mask[2])      # a mask bound to a name first: one level only, `rhs` itself stays a name
                 mask = f.rvalue_tree(sd['rv']) if sd is not None and sd['kind'] == 'assign' else mask
             # all ones except the bits below the power of two: !(rhs - 1), spelled with `!` or as all-ones ^ (rhs - 1)
+            def low(x):
+                # `rhs - 1`, possibly bound to a name first
+                if isinstance(x, tuple) and x and x[0] == 'var' and x[1] != 'rhs' and isinstance(x[2], int):
+                    sd2 = f.single_def(x[2])
+                    x = f.rvalue_tree(sd2['rv']) if sd2 is not None and sd2['kind'] == 'assign' else x
+                return show(x) == '(Sub rhs 1)'
+
+            def ones(x):
+                x = strip_casts(x)
+                return (x[0] == 'int' and x[1] in (-1, 0xffffffff, 0xffffffffffffffff)) or (x[0] == 'item' and re.search(r'(^|[: <])u(32|64)>?::MAX$', str(x[1])) is not None)
             mask_ok = inner[0] == 'bin' and bool(mask) and (
-                (mask[0] == 'bin' and mask[1] == 'BitXor' and show(mask[3]) == '(Sub rhs 1)' and strip_casts(mask[2])[0] == 'int' and strip_casts(mask[2])[1] in (-1, 0xffffffff, 0xffffffffffffffff))
-                or (mask[0] == 'un' and mask[1] == 'Not' and show(mask[2]) == '(Sub rhs 1)'))
+                (mask[0] == 'bin' and mask[1] == 'BitXor' and low(mask[3]) and ones(mask[2]))
+                or (mask[0] == 'un' and mask[1] == 'Not' and low(mask[2])))
             if not p2 or not mask_ok:
                 res.violation(rid, '%s|align' % rid, f, f.blocks[pb]['t'].get('line'), '`@` must be lhs & (!0 ^ (rhs - 1)) under rhs.is_power_of_two(): %s' % show(inner))
                 continue
